@@ -4,3 +4,6 @@ pub mod refs;
 pub mod screen;
 pub mod session;
 pub mod sink;
+pub mod decl;
+pub mod gencrate;
+pub mod genrun;
